@@ -416,6 +416,95 @@ func try(f func()) (r string) {
 }
 `
 
+// tortureSrc enumerates every pair/triple of strings over the alphabet {\\, $, a, ""...} (length <= 3)
+// as keys of array, struct, nested and interface-typed maps: any weakness in how composite keys are
+// joined or escaped makes two distinct keys collide.
+const tortureSrc = `
+type sp struct{ A, B string }
+type sn struct {
+	A string
+	B [2]string
+}
+type si struct {
+	A interface{}
+	B string
+}
+
+func tortureStrings(maxLen int) []string {
+	alpha := []string{"\\", "$", "a"}
+	out := []string{""}
+	level := []string{""}
+	for l := 1; l <= maxLen; l++ {
+		var next []string
+		for _, p := range level {
+			for _, c := range alpha {
+				next = append(next, p+c)
+			}
+		}
+		out = append(out, next...)
+		level = next
+	}
+	return out
+}
+
+func torture() {
+	ss := tortureStrings(3)
+	m1 := map[[2]string]int{}
+	m2 := map[sp]int{}
+	m3 := map[interface{}]int{}
+	m4 := map[si]int{}
+	n := 0
+	for _, a := range ss {
+		for _, b := range ss {
+			n++
+			m1[[2]string{a, b}] = n
+			m2[sp{a, b}] = n
+			m3[sp{a, b}] = n
+			m3[[2]string{a, b}] = -n
+			m4[si{a, b}] = n
+			m4[si{[2]string{a, b}, ""}] = -n
+		}
+	}
+	bad := 0
+	k := 0
+	for _, a := range ss {
+		for _, b := range ss {
+			k++
+			if m1[[2]string{a, b}] != k || m2[sp{a, b}] != k || m3[sp{a, b}] != k || m3[[2]string{a, b}] != -k || m4[si{a, b}] != k || m4[si{[2]string{a, b}, ""}] != -k {
+				bad++
+			}
+		}
+	}
+	out("torture pairs " + itoa(n) + " len " + itoa(len(m1)) + " " + itoa(len(m2)) + " " + itoa(len(m3)) + " " + itoa(len(m4)) + " bad " + itoa(bad))
+	s2 := tortureStrings(2)
+	m5 := map[sn]int{}
+	m6 := map[[3]string]int{}
+	c := 0
+	for _, a := range s2 {
+		for _, b := range s2 {
+			for _, d := range s2 {
+				c++
+				m5[sn{a, [2]string{b, d}}] = c
+				m6[[3]string{a, b, d}] = c
+			}
+		}
+	}
+	bad = 0
+	c = 0
+	for _, a := range s2 {
+		for _, b := range s2 {
+			for _, d := range s2 {
+				c++
+				if m5[sn{a, [2]string{b, d}}] != c || m6[[3]string{a, b, d}] != c {
+					bad++
+				}
+			}
+		}
+	}
+	out("torture triples " + itoa(c) + " len " + itoa(len(m5)) + " " + itoa(len(m6)) + " bad " + itoa(bad))
+}
+`
+
 type history struct {
 	src        string
 	nontrivial bool
@@ -573,7 +662,7 @@ func genProgram(rt *rapid.T, nTypes, nHist int) program {
 	for _, k := range kts {
 		p.types = append(p.types, k.expr)
 	}
-	main := prelude + "\n" + g.decls.String() + "\n" + g.funcs.String() + "\n" + body.String() + "\nfunc main() {\n" + calls.String() + "}\n"
+	main := prelude + tortureSrc + "\n" + g.decls.String() + "\n" + g.funcs.String() + "\n" + body.String() + "\nfunc main() {\n\ttorture()\n" + calls.String() + "}\n"
 	p.files = map[string]string{"main.go": main}
 	return p
 }
@@ -633,6 +722,11 @@ func TestCheck(t *testing.T) {
 		}
 		mj, mn := byH(js), byH(nat)
 		reported := 0
+		if a, b := strings.Join(mj["torture"], "\n"), strings.Join(mn["torture"], "\n"); a != b {
+			ev.Violation(fmt.Sprintf("composite string keys over the alphabet {\\,$,a} collide or get lost:\n  gopherjs %s\n  native   %s", a, b), c.ReproFiles())
+			reported++
+		}
+		ev.Bulk(1600*6+2197*2, 1600*6+2197*2, "separator-torture-keys")
 		for h := range p.hists {
 			key := fmt.Sprintf("h%d", h)
 			a, b := strings.Join(mj[key], "\n"), strings.Join(mn[key], "\n")
